@@ -89,7 +89,9 @@ func ck(i int) uint32 {
 // Cipher is a reference SM4 instance; it keeps no scratch state.
 type Cipher struct{ rk [32]uint32 }
 
-func be32(b []byte) uint32 { return uint32(b[0])<<24 | uint32(b[1])<<16 | uint32(b[2])<<8 | uint32(b[3]) }
+func be32(b []byte) uint32 {
+	return uint32(b[0])<<24 | uint32(b[1])<<16 | uint32(b[2])<<8 | uint32(b[3])
+}
 
 // New returns a reference cipher for a 16-byte key.
 func New(key []byte) (*Cipher, error) {
